@@ -57,6 +57,30 @@ def python_roundtrip_ok(S):
     return True
 
 
+def definitions_doc(same, w1, w2, rootobj, swap, m):
+    o1 = {"type": "object", "title": "Foo", "properties": {"x": {"minimum": m}}}
+    o2 = {"type": "object", "title": "Foo" if same else "Bar", "properties": {"y": {}}}
+    d1 = {"type": "array", "items": o1} if w1 else o1
+    d2 = {"type": "array", "items": o2} if w2 else o2
+    S = {"definitions": ({"d1": d1, "d2": d2} if not swap else {"d2": d2, "d1": d1})}
+    S.update({"type": "object", "title": "Root", "properties": {"p": {"type": "integer"}}} if rootobj else {"type": "string"})
+    return S
+
+
+def document_roundtrip_ok(S):
+    """whole documents: parse() returns the root and the definitions; serialize_json(*elements) must be a fixpoint from the first trip on"""
+    from vf.common import parse, serialize_json, deref, jcopy, jeq
+
+    J1 = serialize_json(*parse(jcopy(S)))
+    J2 = serialize_json(*parse(deref(jcopy(J1))))
+    J3 = serialize_json(*parse(deref(jcopy(J2))))
+    return jeq(J1, J2) and jeq(J2, J3)
+
+
+def _demo_definition_titles_swap():
+    return not document_roundtrip_ok(definitions_doc(True, True, False, False, False, 0))
+
+
 TEMPLATES = {
     # name: (args, pre, setup+schema expr (must define S), tier)
     "num_flags": ("f1: bool, f2: bool, f3: bool, a: int, b: int, m: int, d: Union[int, bool, None]", ["m > 0"], """
@@ -110,6 +134,7 @@ if f2: S["maxProperties"] = n
     "cats_and_dogs": ("m: int", [], 'S = {"type": "object", "title": "House", "properties": {"cats": {"type": "array", "items": {"type": "object", "title": "Cat", "properties": {"n": {"minimum": m}}}}, "dogs": {"type": "array", "items": {"type": "object", "title": "Dog", "properties": {"n": {"minimum": m}}}}, "l": {"type": "object", "title": "L", "properties": {"c": {"type": "object", "title": "LC"}}}, "r": {"type": "object", "title": "R", "properties": {"c": {"type": "object", "title": "RC"}}}}}', "quick"),
     "class_without_own_properties": ("m: int", [], 'S = {"type": "object", "title": "Settings", "additionalProperties": {"properties": {"a": {"type": "string"}}}, "dependencies": {"k": {"properties": {"b": {"minimum": m}}, "required": ["b"]}}}', "quick"),
     "class_without_own_properties_patterns": ("m: int", [], 'S = {"type": "array", "items": {"type": "object", "title": "Row", "patternProperties": {"^x": {"properties": {"a": {"maximum": m}}}}, "propertyNames": {"properties": {"zz": True}}}}', "quick"),
+    "odd_property_names": ("m: int", [], 'S = {"type": "object", "title": "Odd", "properties": {"<=": {"type": "integer", "minimum": m}, "x->y": {}, "a\u00abb\u00bb": {}, "$": {}, "+1": {}, "\u2010": {}, "a.b": {}, "#": {"type": "null"}}, "required": ["<=", "x->y"]}', "quick"),
     "floats": ("m: int", [], 'S = {"type": "number", "minimum": 0.5, "maximum": m, "multipleOf": 0.25, "const": 1.0, "enum": [1, 1.0, True]}', "thorough"),
 }
 
@@ -131,8 +156,12 @@ return python_roundtrip_ok(S)
                          covers="exec(serialize_python(parse(S))) defines classes equal to the parsed ones (realised text)"))
     hs.append(mk("c06_python_description_pool", "i: int", ["0 <= i < 14"], "from vf.props.C07 import docstring_readback_ok, DESC_POOL\nreturn docstring_readback_ok(concretize_int(i, 0, len(DESC_POOL) - 1))", timeout=120, group="python",
                  covers="generated classes for descriptions with unusual whitespace equal the parsed ones (exec)"))
+    excl = ctx.excl("C06-definition-titles-swap", "not (same and ((w1 and not w2 and not swap) or (w2 and not w1 and swap)))")
+    hs.append(mk("c06_json_document_definitions", "same: bool, w1: bool, w2: bool, rootobj: bool, swap: bool, m: int", excl,
+                 "return document_roundtrip_ok(definitions_doc(same, w1, w2, rootobj, swap, m))", timeout=90, group="json",
+                 covers="whole documents through parse() / serialize_json(*elements): two definitions holding object schemas (same or different titles, directly or inside an array, either order), object or scalar root"))
     hs.append(mk("c06__reach", "m: int", [], 'return not (m == 7 and roundtrip_ok({"type": "integer", "minimum": m}))', kind="witness", timeout=20))
     return hs
 
 
-DEMOS = {}
+DEMOS = {"C06-definition-titles-swap": _demo_definition_titles_swap}
